@@ -62,6 +62,9 @@ class Monitor {
         bool line_pending() const { return !cmdq.empty(); }
         bool events_pending() const { return !evq.empty(); }
         bool unit_open() const { return !cands.empty(); }
+        // event machine certainly idle: cat_service reported OK and no event was accepted since
+        bool ev_idle() const { return evq.empty() && evs.empty() && ev_quiet; }
+        bool ev_quiet = true;
         bool quiet() const { return cmdq.empty() && evq.empty() && cands.empty() && !partial_line(); }
         bool partial_line() const;
         bool dead() const { return viol.set() || desync || off || stray; }
